@@ -4,6 +4,8 @@ import BindgenModel.Driver.C08
 import BindgenModel.Driver.C05
 import BindgenModel.Driver.C11
 import BindgenModel.Driver.C12
+import BindgenModel.Driver.C16
+import BindgenModel.Driver.C17
 /-! `bgmodel`: one request per input line, one answer per output line (lines between `ir-begin`
 and `ir-end` load an IR dump and produce no output). -/
 open BindgenModel
@@ -26,6 +28,8 @@ def dispatch (st : St) (line : String) : St × Option String :=
   | "c05" :: rest => (st, some (Driver.C05.handle rest))
   | "det" :: rest => (st, some (Driver.C11.handle rest))
   | "entry" :: rest => (st, some (Driver.C12.handle rest))
+  | "cdecl" :: rest => (st, some (Driver.C16.handle rest))
+  | "c17" :: rest => (st, some (Driver.C17.handle rest))
   | _ => (st, some "bad-op")
 
 partial def loop (h : IO.FS.Stream) (out : IO.FS.Stream) (st : St) : IO Unit := do
